@@ -19,7 +19,7 @@ CHECKS["C01"] = dict(
     engine="E1-config-lattice",
     technique="bounded-exhaustive configuration lattice (deviation bound iterated) x complete symmetric-direction basis, Richardson directional derivatives of the real integrator",
     text="Every state of the enumerated configuration lattice (molecule, feature family, semilocal mode, spin, plan, interpolator, evaluators, spin mode, baselines, mixing, normalisation, grid, density matrix) is run through the real CiderNumInt.nr_rks/nr_uks on C libraries compiled from the working tree; tr(vmat E_ij) is compared with the Richardson-extrapolated derivative of excsum for ALL symmetric basis directions per spin (a complete basis, so vmat = grad E is decided for the state), plus symmetry of vmat and nelec against PySCF's own eval_rho. The base molecule has generally contracted shells (NCTR = 2); a d-shell molecule is included for the SDMX families; a candidate failure is re-decided with a third finite-difference step; for models whose multiplicative baseline is not density weighted ('ONE') grid points with density below 1e-6 carry zero weight (fixed mask).",
-    note="Bounded to molecules with nao<=7, positive-definite density matrices, deviation bound 1 (quick) / 2 (thorough) plus full products of the family/spin/mode/evaluator sub-lattices; finite-difference noise 1e-9 vs threshold 2e-7.",
+    note="Models with fractional-Laplacian features (families FL, FL0, VJ+FL, FL0+SDMX) are in the lattice: NotImplementedError counts as rejection, any other exception on this valid input is reported (one known finding: the NLOF integrators raise AttributeError before computing anything). Bounded to molecules with nao<=7, positive-definite density matrices, deviation bound 1 (quick) / 2 (thorough) plus full products of the family/spin/mode/evaluator sub-lattices; finite-difference noise 1e-9 vs threshold 2e-7.",
     design="5/C01",
 )
 
@@ -71,7 +71,7 @@ CHECKS["C20"] = dict(
     engine="E1-config-lattice+E4-vfftw",
     technique="exhaustive plan enumeration with complete input bases against numpy.fft, on libfft_wrapper built against an executable FFTW model with address checking (model validated against numpy)",
     text="Every plan over dims of rank 1-3 from {1..4} (thorough {1..5}) plus rank-4 tuples x forward/backward x c2c/r2c x in/out of place x batch first/last x 1-3 transforms is built through the real FFTWrapper; plans with <=64 inputs are probed with every unit vector (c2r: images of all real unit vectors), others with a dense vector and edge unit vectors; outputs must equal numpy's unnormalised DFT, shapes as advertised, forward.backward = N.identity, wrong shapes raise, two calls on one plan keep the first result intact and the caller's input unchanged, an earlier output fed back as input is transformed correctly, equivalent input representations (Fortran order, other dtypes) give the same transform, and the FFTW model's address checker and red zones stay silent. The model is validated against numpy on explicit-embed/stride plans and shown to fire on an undersized buffer.",
-    note="FFTW replaced by vfftw (documented semantics of the advanced interface); the real FFTW/MKL binaries are not in the image.",
+    note="Every plan is also run with OpenMP teams of 2, 3, 7 (thorough: 2, 3, 4, 5, 7, 16) threads in the wrapper's copy loops (static partitions: a configuration dimension, not a schedule). FFTW replaced by vfftw (documented semantics of the advanced interface); the real FFTW/MKL binaries are not in the image.",
     design="5/C20, 3.5, appendix B",
 )
 
@@ -79,7 +79,7 @@ CHECKS["C09"] = dict(
     engine="E2-history-bfs",
     technique="explicit-state BFS over call histories on the real integrator / generator objects, canonical state hashing, differential oracle against fresh objects",
     text="Three machines. (1) One real CiderNumInt-family object per feature family is driven through every history (depth 3 quick / 4 thorough) over 13 operations: restricted and unrestricted calls with one, two or three density matrices, another molecule, a new grids object, the same grids object rebuilt in place, a tiny memory budget (several blocks), reset; after every history the last operation's (nelec, excsum, vmat) must equal the same operation on fresh objects, batch elements must equal separate calls, and all caller-owned arrays must be bit-identical. (2) One real NLDF generator is driven through every get_features/get_potential history (depth 4, both spins, two densities, two potentials, both plan types) against the reference model 'the potential belongs to the last feature pass of that spin' realised on fresh generators, with inputs checked for in-place modification. (3) Evaluator chunking around the internal chunk size and aliasing of exponent functions, feature maps, plans and SDMX generators.",
-    note="History depth bounded; PySCF-internal state not in the canonical key; 1e-11 relative.",
+    note="The generator call-history machine runs in SCF mode and in nuclear-gradient mode (atom-ordered input; potential, grid-response density and per-atom force term compared). History depth bounded; PySCF-internal state not in the canonical key; 1e-11 relative.",
     design="5/C09",
 )
 
@@ -87,7 +87,7 @@ CHECKS["C18"] = dict(
     engine="E1-config-lattice",
     technique="exhaustive enumeration of feature-family combinations and of a single-fault invalid-argument alphabet; every accepted C entry point executed on an AddressSanitizer build under the controlled OpenMP runtime",
     text="(i) The full product of semilocal mode x NLDF class (9) x fractional-Laplacian class (4) x SDMX class (7) x rho_mult is constructed and nfeat, get_feat_loc, the scaling-power list, the UEG vector and the recommended-normaliser list are compared for length, plus with normalisers assigned; for every family x mode x spin the counts are compared with what the semilocal plan, the NLDF generator (forward and reverse) and the SDMX generator actually return. (ii) For each constructor/wrapper a single-fault alphabet (249 invalid argument values: unknown strings, wrong lengths and types, zero/negative parameters, lambda<=1, index pairs out of range, wrong-shaped / non-contiguous / wrong-dtype arrays, size mismatches, exponent above alpha_max, lmax misuse) must raise; for the index-pair arguments of NLDFSettingsVI / VIJ / FracLaplSettings every pair in {-2..3}^2 is tried for every combination of independently varied list lengths (accepted iff both indexes address an existing vector spec). (iii) Every harness body of C10 plus stride/offset variants, end-to-end integrator calls, plan bodies with a dense spline table and accepted out-of-ladder exponents, and FFT plans run on the -fsanitize=address build at team sizes 1 and 3; any ASan report or crash is a violation.",
-    note="Single faults only; ASan sees out-of-bounds accesses of the instrumented libraries, not uninitialised reads; NotImplementedError from get_reasonable_normalizer counts as 'not available'.",
+    note="Plans restricted to a subset of the exponent ladder (proc_inds) must return exactly the corresponding columns of the full plan and stay inside NaN-guarded output buffers (and run under ASan). Single faults only; ASan sees out-of-bounds accesses of the instrumented libraries, not uninitialised reads; NotImplementedError from get_reasonable_normalizer counts as 'not available'.",
     design="5/C18",
 )
 
@@ -103,7 +103,7 @@ CHECKS["C06"] = dict(
     engine="E2-history-bfs",
     technique="explicit-state BFS over the octahedral group orbit (generators C4z, C4x, inversion) x atom permutations x translations on fresh real objects, invariance/covariance invariants in every state",
     text="From the identity the 48 octahedral operations are reached breadth first through three generators; every state (and its compositions with every atom permutation and two translations) builds the transformed molecule, the signed-permutation AO representation U, fresh grids and a fresh calculator, and must reproduce the identity state's XC energy and electron count to 2e-11, vmat' = U vmat U^T to 2e-10, and per-point NLDF features at co-moved grid points to 1e-9, for semilocal, NLDF j/ij/k (incl. vector features), SDMX with l=1 terms and combined families, restricted and unrestricted. Arbitrary rotations (three Euler triples) are decided to quadrature accuracy with the discrepancy required to shrink under grid refinement.",
-    note="s/p-only basis sets; exactness only for operations that map the atom-centred Lebedev grids onto themselves.",
+    note="Per-point SDMX and fractional-Laplacian features involve no grid quadrature: they must be invariant to 1e-9 (measured 1e-14) at co-moved points under arbitrary proper and improper rotations, translations and atom relabelling. All fixture molecules are in generic position (no atom at the origin or on an axis). s/p-only basis sets; for energies and NLDF features exactness only for operations that map the atom-centred Lebedev grids onto themselves.",
     design="5/C06",
 )
 CHECKS["C13"] = dict(
@@ -150,7 +150,7 @@ CHECKS["C02"] = dict(
     engine="E1-config-lattice",
     technique="enumeration of spec family x level x rho_mult x plan x ladder x interpolator x nspin states; fast paths at three refinement levels vs brute-force quadrature of the documented integrals on evaluation-point-centred Becke grids; path-to-path edge relations",
     text="For every allowed spec of versions j, i (scalar and vector, every dot incl. the density gradient), ij and k, at GGA and meta-GGA level, with rho_mult one/expnt, Gaussian and spline plans, etb/zexp ladders, the three interpolator back ends and nspin 1/2 (deviations<=1 plus the full products family x plan x interpolator and family x level x rho_mult; everything in thorough), the features returned by the real generator at ~28 grid points spanning densities above 1e-3 are compared with a brute-force quadrature of the documented integral (own transcription of the kernels and of the exponent formula) on a level-3 Becke grid with an extra centre at the evaluation point; the discrepancy at the finest of three refinement levels must be within min(max(2 x last refinement step, 4e-3), 2e-2) of the feature scale and not be the worst of the three; states that differ only in the interpolation back end must agree to 1e-3 (measured 1.4e-5), states that differ in plan type or ladder to 2e-2; the spin-polarised path is enumerated at both levels and both rho_mult options for the ij and k families. SDMX: the fast module must equal the reference-grade module to 1e-8 and the documented H_j^0, H_j^0d, H_j^1 integrals of the density matrix (times -1/4) to 2e-2 (measured 3e-5 for j=0,1 and <=6e-3 for j=2).",
-    note="Definition transcribed from the documentation is trusted; points with density < 1e-3 are outside the claim; the size of the truncation error itself is not claimed, only that it is controllable and converges to the documented integral.",
+    note="Fractional-Laplacian orbital features (all four groups, s/p/d and generally contracted shells) are compared at s = 0 and s = 1, where (-Lapl)^s is a differential operator, with PySCF's own orbital derivatives (2e-6 of scale; the package uses one 1F1-spline path for every s; measured 2.5e-8). Definition transcribed from the documentation is trusted; points with density < 1e-3 are outside the claim; the size of the truncation error itself is not claimed, only that it is controllable and converges to the documented integral.",
     design="5/C02",
 )
 
@@ -158,7 +158,7 @@ CHECKS["C03"] = dict(
     engine="E1-config-lattice",
     technique="enumeration of settings family x semilocal mode x rho_mult x plan x molecule x lambda in {1/2, 2/3, 3/2, 2}; the real feature pipeline is run on a molecule and on its exactly co-scaled image (exponents x lambda^2, geometry / lambda, grid / lambda, weights / lambda^3, exponent window, cutoffs and length tables co-scaled) and the scaling exponent of every feature is measured pointwise",
     text="Premise n_lambda(r/lambda) = lambda^3 n(r) is asserted to 1e-10. Then (a) every semilocal plan feature at every mode, (b) the CIDER exponent, (c) every NLDF feature of versions j, i (incl. every vector dot), ij, k at GGA/MGGA, rho_mult one/expnt, Gaussian and spline plans, (d) every SDMX family feature, scales with the declared integer power (median measured exponent within 0.05; a wrong table entry is off by >= 1); (e) after the recommended normalisation every declared power is exactly 0 in the tables and the normalised features of the real pipeline change by < 5e-2 of their scale (measured noise <= 2.3e-2; smallest integer mismatch gives >= 0.33); (f) each normaliser class multiplies the power by the documented amount; (g) a mapped exchange model with LDA_X baseline reading normalised features obeys E_x[n_lambda] = lambda E_x[n] (1e-9 semilocal, 1e-2 nonlocal).",
-    note="The auxiliary even-tempered ladder stays snapped to integer powers of beta in the scaled run: that snapping is the measured noise floor. Fractional-Laplacian features and HybridSettings have no evaluator in the PySCF path and are covered only through their declared tables.",
+    note="The auxiliary even-tempered ladder stays snapped to integer powers of beta in the scaled run: that snapping is the measured noise floor. Fractional-Laplacian features (scalar, l=1, F^d with nd1 != nk1, F^dd) are evaluated through the package's own descriptor getter (FLNumInt + FracLaplPlan), where the relation holds to rounding (measured spread 2e-14, tolerance 1e-8), raw and after the recommended normalisation; HybridSettings has no evaluator and is covered only through its declared table.",
     design="5/C03",
 )
 
